@@ -834,6 +834,66 @@ theorem C17_file_as_written (p : Bool) (f : SchemaFile) (wf : ∀ s ∈ f.schema
             (cmake_lists_indep f.path t f.schemas.length p).2.2.1]
         exact hres
 
+/-- the files exp2cxx creates depend on the suffix assignment only through its values on the schemas of the file -/
+theorem created_congr (f : SchemaFile) (a b : Schema → List Nat) (h : ∀ s ∈ f.schemas, a s = b s) : Cxx.created f a = Cxx.created f b := by
+  unfold Cxx.created
+  have : (f.schemas.map fun s => Cxx.schemaAll s (a s)) = (f.schemas.map fun s => Cxx.schemaAll s (b s)) :=
+    List.map_congr_left (fun s hs => by rw [h s hs])
+  rw [this]
+
+/-- **Scanner versus pass model, in one statement** (the two halves joined inside Lean): for a file of well-formed schemas without
+    interface clauses that exp2cxx accepts, described in the multpass model by schemas in dependency order with disjoint object
+    names — take as suffix assignment what `Pass.printFile` (print_schemas_separate → checkTypes/checkEnts → SCHEMAprint, as found in
+    the tree) actually prints for each schema.  Then exp2cxx creates a file set `l` such that every file a WRITTEN CMakeLists.txt
+    lists is in `l`, and every file of `l` is a per-file file, or listed by the description of its schema, or the `.h` twin of that
+    schema's listed unity source. -/
+theorem C17_scanner_matches_pass_model (p : Bool) (f : SchemaFile) (wf : ∀ s ∈ f.schemas, s.wf) (acc : Cxx.accepts f = true)
+    (pf : Schema → List Nat) (hp : Cxx.passes f = some pf)
+    (ps : List Pass.PSchema) (hdesc : AllDescribe ps f.schemas) (hord : Pass.InDependencyOrder [] ps) (hdj : Pass.OwnDisjoint ps)
+    (hnames : (f.schemas.map (·.name)).Nodup) (fuel : Nat) :
+    ∃ l, Cxx.created f (fun s => ((Pass.printFile Generated.CxxPass.sweepLoop Generated.CxxPass.enumLastCase ps (fuel + 1)).printed.filter
+                                    (fun x => x.1 == s.name)).map (·.2)) = some l ∧
+      (∀ d ∈ (Scanner.runWith p true f).1, ∀ x ∈ d.2.listed, x ∈ l) ∧
+      (∀ x ∈ l, x ∈ fixedFiles ∨ ∃ s ∈ f.schemas, (s.types ≠ [] ∨ s.entities ≠ []) ∧
+          (x ∈ (Scanner.cmake f.path s f.schemas.length p).listed ∨
+           x = Cxx.ccToH (Scanner.cmake f.path s f.schemas.length p).unityEntityImpl ∨
+           x = Cxx.ccToH (Scanner.cmake f.path s f.schemas.length p).unityTypeImpl)) := by
+  have hagree := C17_passes_agree_with_pass_model f ps hdesc hord hdj hnames pf hp fuel
+  rw [created_congr f _ pf hagree]
+  exact C17_file_as_written p f wf acc pf hp
+
+/-- the hypotheses of `C17_scanner_matches_pass_model` are jointly satisfiable: the two-schema file of `two_schema_in_order`
+    (`m2` with an enumeration, `m1` with an entity), described by `pSup`, `pUse` -/
+example : ∃ l, Cxx.created { path := "/w/two.exp", schemas := [{ name := "m2", decls := [.type { name := "colour", kind := .enumeration_, hasHead := false }] },
+                                                                 { name := "m1", decls := [.entity { name := "thing" }] }] }
+      (fun s => ((Pass.printFile Generated.CxxPass.sweepLoop Generated.CxxPass.enumLastCase [pSup, pUse] 3).printed.filter
+                  (fun x => x.1 == s.name)).map (·.2)) = some l := by
+  have h := C17_scanner_matches_pass_model true
+    { path := "/w/two.exp", schemas := [{ name := "m2", decls := [.type { name := "colour", kind := .enumeration_, hasHead := false }] },
+                                        { name := "m1", decls := [.entity { name := "thing" }] }] }
+    (by intro s hs t ht
+        simp only [List.mem_cons, List.not_mem_nil, or_false] at hs
+        rcases hs with rfl | rfl
+        · simp [Schema.types] at ht; subst ht; decide
+        · simp [Schema.types] at ht)
+    (by decide) (fun s => if s.types.isEmpty && s.entities.isEmpty then [] else [0]) rfl
+    [pSup, pUse]
+    (AllDescribe.cons ⟨rfl, by simp [pSup, Pass.PSchema.own, Schema.types, Schema.entities]⟩
+      (AllDescribe.cons ⟨rfl, by simp [pUse, Pass.PSchema.own, Schema.types, Schema.entities]⟩ AllDescribe.nil))
+    two_schema_in_order
+    (by
+      refine ⟨?_, ⟨(fun q hq => by cases hq), trivial⟩⟩
+      intro q hq o ho o' ho'
+      have hq' : q = pUse := by simpa using hq
+      subst hq'
+      have h1 : o = { name := "m1.thing", items := ["m2.colour"] } := by simpa [pUse, Pass.PSchema.own] using ho
+      have h2 : o' = { name := "m2.colour", isEnum := true } := by simpa [pSup, Pass.PSchema.own] using ho'
+      subst h1; subst h2
+      decide)
+    (by decide) 2
+  obtain ⟨l, hl, _⟩ := h
+  exact ⟨l, hl⟩
+
 /-- … while every schema that has a type or an entity and no interface clause is printed exactly once, suffix 0. -/
 theorem C17_passes_nonempty (f : SchemaFile) (pf : Schema → List Nat) (h : Cxx.passes f = some pf) (s : Schema)
     (ne : s.types ≠ [] ∨ s.entities ≠ []) : pf s = [0] := by
